@@ -92,7 +92,7 @@ class ActionContext(abc.ABC):
         var_processor = VariableSetProcessor({}, self.var_cache, self.collection_config)
 
         try:
-            result = self.trigger_context.evaluate_expression(watch)
+            result = self.trigger_context.evaluate_expression(watch, raise_errors=True)
             variable_id, log_str = var_processor.process_variable(watch, result)
             if variable_id.vid is None:
                 # we have already collected the max number of variables, so there is no variable to point at
